@@ -344,3 +344,127 @@ Proof.
     + rewrite nth_error_map, Hcell. reflexivity.
     + cbn [abs]. rewrite <- Ha. reflexivity.
 Qed.
+
+(* ---------- the String representation is a function of the set of members ---------- *)
+Lemma zminmax_list_in l : forall d, In (zmin_list d l) (d :: l) /\ In (zmax_list d l) (d :: l).
+Proof.
+  unfold zmin_list, zmax_list. induction l as [|y l IH]; intros d; cbn [fold_left]; [split; left; reflexivity|].
+  destruct (IH (Z.min d y)) as [H1 _]. destruct (IH (Z.max d y)) as [_ H2]. split.
+  - destruct H1 as [H1|H1]; [|right; right; exact H1]. rewrite <- H1. destruct (Z.min_spec d y) as [[_ ->]|[_ ->]]; [left|right; left]; reflexivity.
+  - destruct H2 as [H2|H2]; [|right; right; exact H2]. rewrite <- H2. destruct (Z.max_spec d y) as [[_ ->]|[_ ->]]; [right; left|left]; reflexivity.
+Qed.
+
+Lemma nth_error_ext_eq {A} (l : list A) : forall l', (forall i, nth_error l i = nth_error l' i) -> l = l'.
+Proof.
+  induction l as [|x l IH]; intros [|y l'] H; [reflexivity|specialize (H O); discriminate|specialize (H O); discriminate|].
+  pose proof (H O) as H0. cbn [nth_error] in H0. inversion H0; subst. f_equal. apply IH. intros i. apply (H (S i)).
+Qed.
+
+Definition count_neg (l : list Z) : Z := Z.of_nat (length (filter (fun c => c <? 0) l)).
+
+Lemma count_neg_repeat n : count_neg (repeat (-1) n) = Z.of_nat n.
+Proof. unfold count_neg. induction n as [|n IH]; cbn [repeat filter length]; [reflexivity|]. cbn [Z.ltb Z.compare length]. lia. Qed.
+
+Lemma count_neg_set_nth c l : 0 <= c -> forall i, (i < length l)%nat ->
+  count_neg (set_nth i c l) = count_neg l - (if nth i l 0 <? 0 then 1 else 0).
+Proof.
+  intros Hc. unfold count_neg. induction l as [|y l IH]; intros [|i] Hi; cbn [length] in Hi; try lia; cbn [set_nth nth filter].
+  - assert (E : c <? 0 = false) by (apply Z.ltb_ge; exact Hc). rewrite E. destruct (y <? 0); cbn [length]; lia.
+  - specialize (IH i ltac:(lia)). destruct (y <? 0); cbn [length]; lia.
+Qed.
+
+(* the hole counter of asString is the number of negative cells *)
+Lemma finish_string_holes vs lo : forall cells holes,
+  (forall v, In v vs -> exists a c, v = RTupChar a c /\ 0 <= c /\ lo <= a < lo + Z.of_nat (length cells)) ->
+  holes = count_neg cells ->
+  snd (fold_left (fun (st : list Z * Z) (v : rep) =>
+        match v with
+        | RTupChar a c =>
+            (set_nth (Z.to_nat (a - lo)) c (fst st),
+             if nth (Z.to_nat (a - lo)) (fst st) 0 <? 0 then snd st - 1 else snd st)
+        | _ => st
+        end) vs (cells, holes)) =
+  count_neg (fst (fold_left (fun (st : list Z * Z) (v : rep) =>
+        match v with
+        | RTupChar a c =>
+            (set_nth (Z.to_nat (a - lo)) c (fst st),
+             if nth (Z.to_nat (a - lo)) (fst st) 0 <? 0 then snd st - 1 else snd st)
+        | _ => st
+        end) vs (cells, holes))).
+Proof.
+  induction vs as [|v vs IH]; intros cells holes Hall Hh; cbn [fold_left fst snd]; [exact Hh|].
+  destruct (Hall v (or_introl eq_refl)) as [a [c [-> [Hc Hr]]]]. cbn [fst snd].
+  apply IH.
+  - intros v' Hv'. destruct (Hall v' (or_intror Hv')) as [a' [c' [E [Hc' Hr']]]]. exists a', c'. rewrite set_nth_length. auto.
+  - rewrite (count_neg_set_nth c cells Hc (Z.to_nat (a - lo))) by lia. rewrite Hh.
+    destruct (nth (Z.to_nat (a - lo)) cells 0 <? 0); lia.
+Qed.
+
+Theorem finish_string_function_of_members vs vs' :
+  vs <> [] -> all_chars vs -> all_chars vs' ->
+  (forall a c c', In (RTupChar a c) vs -> In (RTupChar a c') vs -> c = c') ->
+  (forall m, In m vs <-> In m vs') ->
+  finish_string vs = finish_string vs'.
+Proof.
+  intros Hne Hall Hall' Hcoll Hsame.
+  assert (Hcoll' : forall a c c', In (RTupChar a c) vs' -> In (RTupChar a c') vs' -> c = c').
+  { intros a c c' H1 H2. apply (Hcoll a c c'); apply Hsame; assumption. }
+  destruct vs as [|v0 vs0]; [contradiction|]. destruct vs' as [|v0' vs0']; [exfalso; apply (proj1 (Hsame v0)); left; reflexivity|].
+  set (vs := v0 :: vs0) in *. set (vs' := v0' :: vs0') in *.
+  unfold finish_string, vs, vs'. cbv beta iota zeta. fold vs. fold vs'.
+  set (lo := zmin_list (seq_at v0) (map seq_at vs)). set (hi := zmax_list (seq_at v0) (map seq_at vs)).
+  set (lo' := zmin_list (seq_at v0') (map seq_at vs')). set (hi' := zmax_list (seq_at v0') (map seq_at vs')).
+  (* the index sets coincide, so do the bounds *)
+  assert (Hidx : forall z, In z (seq_at v0 :: map seq_at vs) <-> In z (seq_at v0' :: map seq_at vs')).
+  { assert (G : forall (w0 : rep) ws, In (seq_at w0) (map seq_at (w0 :: ws))) by (intros; left; reflexivity).
+    intros z. split; intros [<-|Hz].
+    - right. apply in_map_iff. exists v0. split; [reflexivity|]. apply Hsame. left. reflexivity.
+    - right. apply in_map_iff in Hz. destruct Hz as [m [<- Hm]]. apply in_map_iff. exists m. split; [reflexivity|apply Hsame; exact Hm].
+    - right. apply in_map_iff. exists v0'. split; [reflexivity|]. apply Hsame. left. reflexivity.
+    - right. apply in_map_iff in Hz. destruct Hz as [m [<- Hm]]. apply in_map_iff. exists m. split; [reflexivity|apply Hsame; exact Hm]. }
+  assert (Hle : forall (d : Z) l z, In z (d :: l) -> zmin_list d l <= z <= zmax_list d l).
+  { intros d l z [<-|Hz]; split; try apply (proj1 (zmin_list_le l d)); try apply (proj1 (zmax_list_ge l d));
+      [apply (proj2 (zmin_list_le l d)); exact Hz|apply (proj2 (zmax_list_ge l d)); exact Hz]. }
+  assert (Elo : lo = lo').
+  { pose proof (proj1 (zminmax_list_in (map seq_at vs) (seq_at v0))) as H1. pose proof (proj1 (zminmax_list_in (map seq_at vs') (seq_at v0'))) as H2.
+    fold lo in H1. fold lo' in H2. apply Hidx in H1. apply Hidx in H2.
+    pose proof (proj1 (Hle _ _ _ H1)). pose proof (proj1 (Hle _ _ _ H2)). fold lo in H0. fold lo' in H. lia. }
+  assert (Ehi : hi = hi').
+  { pose proof (proj2 (zminmax_list_in (map seq_at vs) (seq_at v0))) as H1. pose proof (proj2 (zminmax_list_in (map seq_at vs') (seq_at v0'))) as H2.
+    fold hi in H1. fold hi' in H2. apply Hidx in H1. apply Hidx in H2.
+    pose proof (proj2 (Hle _ _ _ H1)). pose proof (proj2 (Hle _ _ _ H2)). fold hi in H0. fold hi' in H. lia. }
+  rewrite <- Elo, <- Ehi. set (n := Z.to_nat (hi - lo + 1)).
+  assert (Hb : forall a c, In (RTupChar a c) vs -> lo <= a <= hi).
+  { intros a c Hin. apply (Hle (seq_at v0) (map seq_at vs)). right. apply in_map_iff. exists (RTupChar a c). split; [reflexivity|exact Hin]. }
+  assert (Hr : in_range lo (length (repeat (-1) n)) (char_pairs vs)).
+  { intros a c Hin. apply char_pairs_in in Hin. rewrite repeat_length. pose proof (Hb a c Hin). unfold n. rewrite Z2Nat.id by lia. lia. }
+  assert (Hr' : in_range lo (length (repeat (-1) n)) (char_pairs vs')).
+  { intros a c Hin. apply char_pairs_in in Hin. apply Hsame in Hin. apply char_pairs_in in Hin. apply (Hr a c Hin). }
+  (* the cells coincide *)
+  assert (Ecells : write_all lo (char_pairs vs) (repeat (-1) n) = write_all lo (char_pairs vs') (repeat (-1) n)).
+  { apply nth_error_ext_eq. intros i.
+    destruct (Nat.lt_ge_cases i n) as [Hi|Hi].
+    - assert (Hi' : (i < length (repeat (-1)%Z n))%nat) by (rewrite repeat_length; exact Hi).
+      destruct (written_dec lo (char_pairs vs) i) as [Hw|Hno].
+      + assert (Hw' : exists x, In (lo + Z.of_nat i, x) (char_pairs vs')).
+        { destruct Hw as [x Hx]. exists x. apply char_pairs_in. apply Hsame. apply char_pairs_in. exact Hx. }
+        destruct (write_all_written lo _ _ i Hr Hi' Hw) as [c [Hin Hc]].
+        destruct (write_all_written lo _ _ i Hr' Hi' Hw') as [c' [Hin' Hc']].
+        rewrite Hc, Hc'. f_equal. apply (Hcoll (lo + Z.of_nat i) c c'); [apply char_pairs_in; exact Hin|].
+        apply Hsame. apply char_pairs_in. exact Hin'.
+      + assert (Hno' : forall x, ~ In (lo + Z.of_nat i, x) (char_pairs vs')).
+        { intros x Hx. apply (Hno x). apply char_pairs_in. apply Hsame. apply char_pairs_in. exact Hx. }
+        rewrite (write_all_untouched lo _ _ i Hr Hno), (write_all_untouched lo _ _ i Hr' Hno'). reflexivity.
+    - assert (E1 : nth_error (write_all lo (char_pairs vs) (repeat (-1) n)) i = None)
+        by (apply nth_error_None; rewrite write_all_length, repeat_length; exact Hi).
+      assert (E2 : nth_error (write_all lo (char_pairs vs') (repeat (-1) n)) i = None)
+        by (apply nth_error_None; rewrite write_all_length, repeat_length; exact Hi).
+      rewrite E1, E2. reflexivity. }
+  assert (Hst : forall ws, (forall m, In m ws -> In m vs) ->
+            forall v, In v ws -> exists a c, v = RTupChar a c /\ 0 <= c /\ lo <= a < lo + Z.of_nat (length (repeat (-1) n))).
+  { intros ws Hsub v Hv. destruct (Hall v (Hsub v Hv)) as [a [c [-> Hc]]]. exists a, c. split; [reflexivity|]. split; [exact Hc|].
+    pose proof (Hb a c (Hsub _ Hv)). rewrite repeat_length. unfold n. rewrite Z2Nat.id by lia. lia. }
+  rewrite (finish_string_holes vs lo (repeat (-1) n) (Z.of_nat n) (Hst vs (fun m H => H)) (eq_sym (count_neg_repeat n))).
+  rewrite (finish_string_holes vs' lo (repeat (-1) n) (Z.of_nat n) (Hst vs' (fun m H => proj2 (Hsame m) H)) (eq_sym (count_neg_repeat n))).
+  rewrite !finish_string_cells. rewrite Ecells. reflexivity.
+Qed.
